@@ -24,6 +24,10 @@ ASSUMPTIONS = ["root schemas (empty key) as the property's quantifier says; a ke
 def gen_schema(rng, tmp, keypath):
     sk = C.gen_schema(rng, tmp, keypath, depth=3, width=(2, 5), opts={"virtual": True})
     # drop lists of configurations from this stream (not addressed by dotted paths) but keep config types
+    if rng.random() < 0.3:
+        # a section that declares nothing (yet): a schema without fields, at the root or inside another section
+        holders = [sk] + [sf["schema"] for _, sf in sk["fields"] if sf["s"] == "sub"]
+        rng.choice(holders)["fields"].append(["zz_section", {"s": "sub", "schema": {"fields": [], "dynamic": False, "validators": []}}])
     return sk
 
 
